@@ -433,6 +433,8 @@ pub struct World {
     violation: Option<Violation>,
     foreign: Option<String>,
     yield_budget: u32,
+    /// The last quiescence loop ended at its round cap, not at a fixpoint.
+    quiesce_incomplete: bool,
     quiescing: bool,
     next_seq: u32,
     router_blocked: bool,
@@ -2863,11 +2865,16 @@ fn quiesce(router: &mut Router, world: &Rc<RefCell<World>>) -> bool {
     }
     let saved_budget = std::mem::replace(&mut world.borrow_mut().yield_budget, 0);
     let mut alive = true;
-    for _round in 0..400 {
+    // the loop ends at a fixpoint; the cap only bounds the cost of one run, and a
+    // run that reaches it (a backlog of tens of thousands of messages behind a
+    // window of 100) is not judged for completeness
+    let mut fixpoint = false;
+    for _round in 0..3000 {
         let mut progress = false;
         {
             let mut w = world.borrow_mut();
             if w.done() {
+                fixpoint = true;
                 break;
             }
             // every enabled non-router step except new stimulus (quiescing flag)
@@ -2920,12 +2927,17 @@ fn quiesce(router: &mut Router, world: &Rc<RefCell<World>>) -> bool {
                     }).unwrap_or(false))
         });
         if !progress && !pending_signals && !more && w.evq.is_empty() {
+            fixpoint = true;
             break;
         }
     }
     let mut w = world.borrow_mut();
     w.yield_budget = saved_budget;
     w.quiescing = false;
+    w.quiesce_incomplete = alive && !fixpoint;
+    if w.quiesce_incomplete {
+        w.rep.probe("quiescence_round_cap_reached");
+    }
     alive
 }
 
@@ -3455,6 +3467,7 @@ fn run_single(
         foreign: None,
         yield_budget: cfg.yield_budget,
         quiescing: false,
+        quiesce_incomplete: false,
         next_seq: 1,
         router_blocked: false,
         sub_id_counter: 0,
@@ -3583,7 +3596,8 @@ fn run_single(
                 break;
             }
             let snap = router.verif_snapshot();
-            world.borrow_mut().check_at_quiescence(&snap, true);
+            let complete = !world.borrow().quiesce_incomplete;
+            world.borrow_mut().check_at_quiescence(&snap, complete);
             world.borrow_mut().rep.probe("mid_run_quiescence");
         }
     }
@@ -3591,7 +3605,8 @@ fn run_single(
         if quiesce(&mut router, &world) {
             let snap = router.verif_snapshot();
             let mut w = world.borrow_mut();
-            w.check_at_quiescence(&snap, true);
+            let complete = !w.quiesce_incomplete;
+            w.check_at_quiescence(&snap, complete);
             let fp = fingerprint(&router);
             w.rep.state(fp);
         }
